@@ -402,7 +402,10 @@ impl GitignoreBuilder {
                     break;
                 }
             };
-            if let Err(err) = self.add_line(Some(path.to_path_buf()), &line) {
+            // Like git, skip a UTF-8 byte order mark at the start of the file.
+            let line =
+                if i == 0 { line.trim_start_matches('\u{feff}') } else { &line };
+            if let Err(err) = self.add_line(Some(path.to_path_buf()), line) {
                 errs.push(err.tagged(path, lineno));
             }
         }
